@@ -27,6 +27,10 @@ type params struct {
 	// five arrival patterns around the first qualifying block T of the epoch (choice point per epoch).
 	Sweep  bool
 	Epochs int
+	// Status: between two deliveries the harness may call GetEpochStatus() (as AggSender does from its own goroutine)
+	// while the block notifier's current block is already AHEAD of the delivered events (the real polling notifier
+	// updates its current block before it publishes). Explored with a deviation bound (skips + queries).
+	Status bool
 }
 
 type fakeBlocks struct {
@@ -77,6 +81,17 @@ func units(tier string) []mc.Unit {
 					p := params{Len: l, Start: s, Pct: pct, Noise: noise}
 					us = append(us, mc.Unit{Name: fmt.Sprintf("len=%d,start=%d,pct=%d,noise=%v", l, s, pct, noise), Params: p})
 				}
+			}
+		}
+	}
+	// status queries interleaved with deliveries
+	for l := uint64(2); l <= 4; l++ {
+		for _, s := range []uint64{0, 5} {
+			for pct := uint(0); pct < 100; pct++ {
+				if tier == "quick" && pct%5 != 0 && pct != 99 {
+					continue
+				}
+				us = append(us, mc.Unit{Name: fmt.Sprintf("status:len=%d,start=%d,pct=%d", l, s, pct), Params: params{Len: l, Start: s, Pct: pct, Status: true}})
 			}
 		}
 	}
@@ -195,9 +210,23 @@ func runInBubble(c *mc.Ctx, u mc.Unit) {
 			candidates = append(candidates, b)
 		}
 	}
-	for _, b := range candidates {
+	for i, b := range candidates {
 		if !p.Sweep && c.Bool("skip-block") {
 			continue
+		}
+		if p.Status {
+			// the block notifier has already polled this block / the newest block; its event is still queued
+			if q := c.Choose(3, "epoch-status-query-before-delivery"); q > 0 {
+				fb.cur = b
+				if q == 2 {
+					fb.cur = candidates[len(candidates)-1]
+				}
+				_ = n.GetEpochStatus()
+				c.Witness("status_queries_ahead_of_the_delivered_block")
+				if i > 0 && epochOf(p, fb.cur) > epochOf(p, b) {
+					c.Witness("status_queries_in_a_later_epoch_than_the_next_delivered_block")
+				}
+			}
 		}
 		feed(b)
 		fed = append(fed, b)
@@ -251,12 +280,22 @@ func main() {
 	mc.Main(mc.Spec{
 		ID: "C18", Level: "model_checking",
 		Units: units,
+		Bound: func(tier string, u mc.Unit) int {
+			if u.Params.(params).Status {
+				if tier == "thorough" {
+					return 3
+				}
+				return 2
+			}
+			return -1
+		},
 		Batch: func(string) int { return 40 },
 		Run:   run,
 		Setup: func(string) { kit.Quiet() },
 		Rule: "unit = (epoch length, starting block, percentage, noise); inside a unit every subset of the blocks in " +
 			"(start, start+3*len] is fed in increasing order to the real notifier goroutine (one choice point per block); " +
 			"sweep units (long epochs): per epoch one of 5 arrival patterns around the first qualifying block (all blocks / exactly it / its two neighbours / only its predecessor / none); " +
+			"status units: every block of 3 epochs is a candidate, choice points per block = skip it / call GetEpochStatus() first while the block notifier already reports this block or the newest block; explored up to 2 (thorough 3) deviations from 'feed everything, no query'; " +
 			"non-trivial = at least one block fed; distinct = distinct (unit, fed sequence, events) observations",
 		Assumptions: []string{
 			"the starting block itself counts as already seen (the notifier's initial state says so); it is fed as a no-op",
@@ -265,10 +304,12 @@ func main() {
 		Bounds: func(tier string) map[string]any {
 			if tier == "thorough" {
 				return map[string]any{"epoch_len": "1..5", "start": []int{0, 1, 5}, "pct": "0..99", "blocks": "all subsets of 3 epochs", "noise": "len<=4",
-					"threshold_sweep": "epoch_len 6..256 and {300,360,720,1000,7200}, start 7, pct 0..99, 5 arrival patterns per epoch around the first qualifying block, 3 epochs"}
+					"threshold_sweep": "epoch_len 6..256 and {300,360,720,1000,7200}, start 7, pct 0..99, 5 arrival patterns per epoch around the first qualifying block, 3 epochs",
+					"status_queries": "epoch_len 2..4, start {0,5}, pct 0..99, <= 3 deviations (skipped blocks + GetEpochStatus calls ahead of the delivery)"}
 			}
 			return map[string]any{"epoch_len": "1..4", "start": []int{0, 1, 5}, "pct": "0..99", "blocks": "all subsets of 3 epochs", "noise": "len<=3",
-				"threshold_sweep": "epoch_len 5..60 and {100,128,300,360,720,1000,7200}, start 7, pct 0..99, 5 arrival patterns per epoch around the first qualifying block, 2 epochs"}
+				"threshold_sweep": "epoch_len 5..60 and {100,128,300,360,720,1000,7200}, start 7, pct 0..99, 5 arrival patterns per epoch around the first qualifying block, 2 epochs",
+				"status_queries": "epoch_len 2..4, start {0,5}, pct multiples of 5 and 99, <= 2 deviations (skipped blocks + GetEpochStatus calls ahead of the delivery)"}
 		},
 	})
 }
